@@ -3,7 +3,7 @@
    plus the port and interface-pinning rule, for ANY handlers; lif is the index of the
    interface the listener is bound to (0 = unbound), oob the interface index of the control
    message the request arrived with. *)
-From Verif Require Import Base BaseProofs Net Msg4 Chain ChainProofs Server4 Server4Run Server4Proofs Server4Examples Assembly AssemblyProofs AsmRefine Opt4Codec Msg4Codec Frame Opt4Proofs Msg4CodecProofs FrameProofs.
+From Verif Require Import Base BaseProofs Net Msg4 Chain ChainProofs Server4 Server4Run Server4Proofs Server4Examples Assembly AssemblyProofs AsmRefine Opt4Codec Msg4Codec Frame Opt4Proofs Msg4CodecProofs FrameProofs FrameWf.
 Open Scope N_scope.
 
 Theorem dest4_relay :
@@ -203,6 +203,44 @@ Theorem checksum_verifies :
   forall t : N, t + 65535 < 4294967296 -> fold16 (t + csum16 t) = 65535.
 Proof. exact (@FrameProofs.csum_verifies). Qed.
 Print Assumptions checksum_verifies.
+
+Theorem serialised_reply_is_bytes :
+  forall (m : msg4) (p : bytes), bytes_msg m -> enc_body m = Ok p -> wf_bytes p.
+Proof. exact (@FrameWf.enc_body_wf). Qed.
+Print Assumptions serialised_reply_is_bytes.
+
+Theorem l2_frame_view_of_reply :
+  forall (src_mac : bytes) (m : msg4) (f : bytes),
+  bytes_msg m ->
+  enc_frame src_mac m = Ok f ->
+  exists p si yi : bytes,
+  enc_body m = Ok p /\
+  to4 (m_siaddr m) = Some si /\
+  to4 (m_yiaddr m) = Some yi /\
+  length f = (42 + length p)%nat /\ dec_frame f = Some (expected_view src_mac m si yi p).
+Proof. exact (@FrameWf.frame_view_of_reply). Qed.
+Print Assumptions l2_frame_view_of_reply.
+
+Theorem l2_reply_reaches_client :
+  forall (src_mac : bytes) (m : msg4) (f : bytes),
+  bytes_msg m ->
+  wf_msg m ->
+  enc_frame src_mac m = Ok f ->
+  exists v : fview,
+  dec_frame f = Some v /\
+  v_dst_mac v = m_chaddr m /\
+  v_etype v = 2048 /\
+  v_proto v = 17 /\
+  to4 (m_siaddr m) = Some (v_src_ip v) /\
+  to4 (m_yiaddr m) = Some (v_dst_ip v) /\
+  v_sport v = 67 /\
+  v_dport v = 68 /\
+  v_ipck_ok v = true /\
+  v_udpck_ok v = true /\
+  N.of_nat (length f) = 14 + v_totlen v /\
+  v_totlen v = 20 + v_ulen v /\ dec_msg (v_payload v) = Some (wire_msg m).
+Proof. exact (@FrameWf.l2_reply_reaches_client). Qed.
+Print Assumptions l2_reply_reaches_client.
 
 (* Non-vacuity (proofs/Server4Examples.v): a DISCOVER through the chain [mark; set yiaddr; stop; mark]
    on an unbound listener is answered by a link-level OFFER on the receiving interface, the fourth
